@@ -145,7 +145,7 @@ CHECKS = {
             "note": "Blank.SetSource is covered in C20's Blank harness (it calls this method under a mutex)",
             "design_ref": "DESIGN.md §4 C07",
         },
-        "runs": [conc("HarnessC08StackError", ["c08-stackerr-end"]), conc("HarnessC08BlockedCallback", ["c08-blocked-end"]), conc("HarnessC07Quick", ["c07-end"]), conc("HarnessC07Second", ["c07-end"]),
+        "runs": [conc("HarnessC08StackError", ["c08-stackerr-end"]), conc("HarnessC08BlockedCallback", ["c08-blocked-end"]), conc("HarnessC07Quick", ["c07-end"]), conc("HarnessC07Second", ["c07-end"]), conc("HarnessC04Quick", ["c04-end", "c04-config-rejected"]),
                  {"entry": M + "/sourcewrap.HarnessC04Wrapped", "pkgs": SW, "must_reach": ["c04-wrapped-end"], "instrument": [M, M + "/sourcewrap"], "validate": 0},
                  {"entry": M + "/sourcewrap.HarnessC20BlankContexts", "pkgs": SW, "must_reach": ["c20-blank-ctx-end", "c20-blank-late-end", "c20-blank-eager-end"], "instrument": [M, M + "/sourcewrap"], "validate": 0},
                  {"entry": M + "/sourcewrap.HarnessC20Blank", "pkgs": SW, "must_reach": ["c20-blank-end", "c20-blank-done"], "instrument": [M, M + "/sourcewrap"], "validate": 0}],
